@@ -333,6 +333,11 @@ impl<'a> Checker<'a> {
                         return Ok(T_INVALID);
                     }
                 };
+                if n > i64::MAX as i128 {
+                    // Go: "array length N (untyped int constant) must be integer" / overflows int
+                    self.err(len.pos, "bad-array-length", format!("invalid array length {} (overflows int)", n));
+                    return Ok(T_INVALID);
+                }
                 if n > MAX_ZERO_SLOTS as i128 {
                     return self.unsup(len.pos, "huge-array");
                 }
